@@ -241,6 +241,12 @@ class TSock:
         if ev[0] == 1:
             self.pending = (EV_READ, ev[1])
             raise BlockingIOError
+        if ev[0] == 3:  # TLS layer needs to read first
+            self.pending = (EV_READ, ev[1])
+            raise dns.query.ssl.SSLWantReadError
+        if ev[0] == 4:  # TLS layer needs to write first (renegotiation)
+            self.pending = (EV_WRITE, ev[1])
+            raise dns.query.ssl.SSLWantWriteError
         return b""
 
     def send(self, buf):
@@ -252,6 +258,12 @@ class TSock:
             k = min(ev[1], len(buf))
             self.sent += bytes(buf[:k])
             return k
+        if ev[0] == 3:
+            self.pending = (EV_READ, ev[1])
+            raise dns.query.ssl.SSLWantReadError
+        if ev[0] == 4:
+            self.pending = (EV_WRITE, ev[1])
+            raise dns.query.ssl.SSLWantWriteError
         self.pending = (EV_WRITE, ev[1])
         raise BlockingIOError
 
@@ -674,7 +686,7 @@ def deadline_reachable(now, deadline, *scripts):
     total = 0
     for evs in scripts:
         for e in evs:
-            if e[0] == 1:
+            if is_block(e):
                 if e[1] is None:
                     return True
                 total += e[1]
@@ -892,12 +904,17 @@ def small_msg(rng, q=None, forge=None):
     return q, wire, pabs
 
 
+def is_block(e):
+    """would-block class events: BlockingIOError (1), ssl.SSLWantReadError (3), ssl.SSLWantWriteError (4)"""
+    return e[0] in (1, 3, 4)
+
+
 def sprinkle(rng, evs, kind, p_block=0.2, p_eof=0.0):
     """insert would-block (and EOF) events into a chunk script"""
     out = []
     for e in evs:
         while rng.random() < p_block:
-            out.append([1, gen_dt(rng)])
+            out.append([rng.choice([1, 1, 1, 3, 4] if kind == "r" else [1, 1, 1, 4, 3]), gen_dt(rng)])
         out.append(e)
     if rng.random() < p_eof:
         out.insert(rng.randrange(len(out) + 1), [2])
@@ -985,9 +1002,9 @@ def cases(ctx):
     ctx.notes["exhaustive"] = True
     ctx.notes["exhaustive_scope"] = f"all {total} chunkings of every stream length 0..{nmax} for _net_read; all chunkings of lengths 0..{ctx.n(6, 10)} for _net_write"
     # ---- _net_read / _net_write: every script of length <= L over a small alphabet of socket events
-    L = ctx.n(3, 4)
-    ralpha = [[0, 1], [0, 2], [0, 9], [1, 1], [1, None], [2]]
-    walpha = [[0, 0], [0, 1], [0, 2], [0, 9], [1, 1], [1, None]]
+    L = 3
+    ralpha = [[0, 1], [0, 2], [0, 9], [1, 1], [1, None], [2], [3, 1], [4, 1]]
+    walpha = [[0, 0], [0, 1], [0, 2], [0, 9], [1, 1], [1, None], [3, 1], [4, 1]]
     nexh = 0
     for ln in range(0, L + 1):
         for evs in itertools.product(ralpha, repeat=ln):
@@ -998,7 +1015,7 @@ def cases(ctx):
             for exp in (None, 2):
                 nexh += 1
                 yield "net_write_script_exh", [7, b"\x01\x02\x03", list(evs), exp, 0]
-    ctx.notes["exhaustive_stream_scripts"] = f"all {nexh} read/write scripts of length <= {L} over 6-event alphabets (chunks of 0/1/2/9, would-block 1 / forever, EOF) with and without a deadline"
+    ctx.notes["exhaustive_stream_scripts"] = f"all {nexh} read/write scripts of length <= {L} over 8-event alphabets (chunks of 0/1/2/9, BlockingIOError 1 tick / forever, SSLWantRead, SSLWantWrite, EOF) with and without a deadline"
     # ---- _net_write: exhaustive chunkings
     for n in range(0, ctx.n(6, 10) + 1):
         data = bytes(rng.randrange(256) for _ in range(n))
@@ -1084,6 +1101,16 @@ def udp_exhaustive(ctx):
             n += 1
             yield "udp_exh", [5, q, qwire, server, 5, socket.AF_INET, OPTS, [], tab, list(evs), 0]
     ctx.notes["exhaustive_udp"] = f"all {n} scripts of length <= {L} over an 8-event alphabet x all 32 option combinations x sync/async"
+    # receive_udp called directly: without a query (nothing to compare a truncated reply with: it
+    # must be reported as Truncated when asked, whatever ignore_errors says) and with one, with and
+    # without a destination; every script of length <= 2
+    m2 = 0
+    for query, dest in ((None, server), (None, None), (q, server)):
+        for ln in range(0, 3):
+            for evs in itertools.product(alphabet, repeat=ln):
+                m2 += 1
+                yield "recv_udp_exh", [4, socket.AF_INET, dest, 5, 0, OPTS, query, tab, list(evs)]
+    ctx.notes["exhaustive_receive_udp"] = f"all {m2} (query None/given, destination given/None) x scripts of length <= 2 x all 32 option combinations x sync/async"
 
 
 def big_dgram_cases(ctx, rng):
@@ -1104,12 +1131,12 @@ def deadline_cases(ctx, rng):
         stream = bytes(rng.randrange(256) for _ in range(6))
         evs = []
         for _ in range(rng.randrange(2, 7)):
-            evs.append([1, rng.choice([1, 2, 3, 4, 5, 6])])
+            evs.append([rng.choice([1, 1, 3, 4]), rng.choice([1, 2, 3, 4, 5, 6])])
             evs.append([0, rng.choice([1, 1, 2, 6])])
         yield "net_read_deadline", [6, stream, evs, rng.choice([5, 8, 10, 12, 15]), 0, [2, 4]]
         wv = []
         for _ in range(rng.randrange(1, 5)):
-            wv.append([1, rng.choice([1, 2, 3, 4, 5])])
+            wv.append([rng.choice([1, 1, 4, 3]), rng.choice([1, 2, 3, 4, 5])])
             wv.append([0, rng.choice([1, 2, 100])])
         yield "net_write_deadline", [7, bytes(range(6)), wv, rng.choice([5, 8, 10, 12]), 0]
     for i in range(ctx.n(50, 500)):
@@ -1118,9 +1145,9 @@ def deadline_cases(ctx, rng):
         stream = struct.pack("!H", len(w)) + w
         wv, rv = [], []
         for _ in range(rng.randrange(0, 3)):
-            wv += [[1, rng.choice([1, 2, 3, 4])], [0, rng.choice([1, 3, 100])]]
+            wv += [[rng.choice([1, 1, 4, 3]), rng.choice([1, 2, 3, 4])], [0, rng.choice([1, 3, 100])]]
         for _ in range(rng.randrange(1, 4)):
-            rv += [[1, rng.choice([1, 2, 3, 4])], [0, rng.choice([1, 2, 100])]]
+            rv += [[rng.choice([1, 1, 3, 4]), rng.choice([1, 2, 3, 4])], [0, rng.choice([1, 2, 100])]]
         if rng.random() < 0.5:
             rv = rv[1:]  # the answer is already there when the send completes
         tmo = rng.choice([4, 6, 8, 10, 14])
@@ -1513,7 +1540,7 @@ def oracle1(ctx, kind, case, out, flavour):
                 fail("receive_tcp returned octets that are not the j-th message sent")
             elif ws[j] in t and expected_parse(t[ws[j]], it, 0)[0] != "ok":
                 fail("receive_tcp returned a malformed message")
-        clean = exp is None and not any(e[0] == 2 or (e[0] == 0 and e[1] == 0) or (e[0] == 1 and e[1] is None) for e in revs)
+        clean = exp is None and not any(e[0] == 2 or (e[0] == 0 and e[1] == 0) or (is_block(e) and e[1] is None) for e in revs)
         if clean:
             for j, w in enumerate(ws):
                 if j + 1 >= len(out):
